@@ -16,9 +16,9 @@ def run(tier, runner):
     r_eo.require(10, 'adjustEachOtherCapacity instantiations')
     r_cd = lifetime.check_dom(progs + real)
     r_st.require(6, 'hand-over functions')
-    r_cd.require(20, 'constructs into container storage')
-    r_cs.require(20, 'public mutators of the dynamic vectors')
-    r_gg.require(7, 'grow call sites')
+    r_cd.require(15, 'constructs into container storage')
+    r_cs.require(14, 'public mutators of the dynamic vectors')
+    r_gg.require(4, 'grow call sites')
     r_geo.require(2, 'SafeNextCapacity')
     return {
         'results': [r_cs, r_gg, r_geo, r_st, r_cd, r_eo],
